@@ -388,7 +388,7 @@ func genC18Pairs(g *G) {
 				"slice s0", "append s1 7 8", "appendnil s1",
 				"addall s0 s1", "issubset s1 s0", "removeall s0 s1", "intersects s0 s1", "pop s1", "pop s1",
 			}
-			g.Case(ops)
+			g.Each(ops) // exhaustive part: dealt to the generator shards
 		}
 	}
 	// every triple over {0,1,2} plus nil for the n-ary Intersect (9^3 cases would be too many lines
@@ -397,7 +397,7 @@ func genC18Pairs(g *G) {
 	for a := -1; a < 1<<m; a++ {
 		for b := -1; b < 1<<m; b++ {
 			for c := -1; c < 1<<m; c += 1 + g.Scale(2, 0) {
-				g.Case([]string{"reset", c18Set("s0", a, m), c18Set("s1", b, m), c18Set("s2", c, m),
+				g.Each([]string{"reset", c18Set("s0", a, m), c18Set("s1", b, m), c18Set("s2", c, m),
 					"intersect s3 s0 s1 s2", "intersect s3 s2 s1 s0", "intersect s3 s1 s2 s0 s1", "intersect s3"})
 			}
 		}
